@@ -294,6 +294,19 @@ func scPartial(kind string) func(x *vs.Exec) {
 			blocker = &msg.NewProxy{ProxyName: "blk", ProxyType: "http", CustomDomains: []string{"b.example.com"}}
 			victim = &msg.NewProxy{ProxyName: "v", ProxyType: "http", CustomDomains: []string{"a.example.com", "b.example.com"}, Group: "HG", GroupKey: "k"}
 			retry = &msg.NewProxy{ProxyName: "v", ProxyType: "http", CustomDomains: []string{"a.example.com"}, Group: "HG", GroupKey: "k"}
+		case "http-subdomain", "https-subdomain", "tcpmux-subdomain":
+			// the custom domains succeed, the sub-domain — the last step — is taken by another client
+			typ := strings.TrimSuffix(kind, "-subdomain")
+			mk := func(name string, domains []string, sub string) *msg.NewProxy {
+				m := &msg.NewProxy{ProxyName: name, ProxyType: typ, CustomDomains: domains, SubDomain: sub}
+				if typ == "tcpmux" {
+					m.Multiplexer = "httpconnect"
+				}
+				return m
+			}
+			blocker = mk("blk", nil, "taken")
+			victim = mk("v", []string{"c1.example.com", "C2.Example.com"}, "taken")
+			retry = mk("v", []string{"c1.example.com", "C2.Example.com"}, "free")
 		case "name-taken":
 			blocker = &msg.NewProxy{ProxyName: "v", ProxyType: "tcp", RemotePort: 20002}
 			victim = &msg.NewProxy{ProxyName: "v", ProxyType: "tcp", RemotePort: 20001}
@@ -448,7 +461,7 @@ func main() {
 	for _, t := range []string{"tcp", "http", "stcp"} {
 		runs = append(runs, run{"term/" + t + "/hbtimeout", drv.Pick(c, 1, 1)})
 	}
-	for _, k := range []string{"http-2nd-domain", "http-2nd-location", "https-2nd-domain", "tcpmux-2nd-domain", "httpgroup-2nd-domain", "tcpmuxgroup-2nd-domain", "tcp-listen-fails", "tcpgroup-listen-fails", "udp-listen-fails", "name-taken", "port-taken", "udp-port-taken"} {
+	for _, k := range []string{"http-2nd-domain", "http-2nd-location", "https-2nd-domain", "tcpmux-2nd-domain", "httpgroup-2nd-domain", "tcpmuxgroup-2nd-domain", "http-subdomain", "https-subdomain", "tcpmux-subdomain", "tcp-listen-fails", "tcpgroup-listen-fails", "udp-listen-fails", "name-taken", "port-taken", "udp-port-taken"} {
 		runs = append(runs, run{"partial/" + k, drv.Pick(c, 1, 2)})
 	}
 	for _, k := range []string{"closenotify", "stats", "rwc", "rwcconn", "encryption", "compression"} {
